@@ -1,7 +1,7 @@
 (* Extraction of the executable models to OCaml.  ExtrOcamlBasic only; no Extract Constant /
    Extract Inductive of our own: nat, N, Z, positive, ascii stay the extracted inductives. *)
 Require Import ExtrOcamlBasic.
-Require Import Bytes Base64Model Rfc4648 NumParse Restartable TablesGen ParserModel ParserInst RouterModel QueueModel PromiseConc PromiseConcLemmas.
+Require Import Bytes Base64Model Rfc4648 NumParse Restartable TablesGen ParserModel ParserInst RouterModel QueueModel PromiseConc PromiseConcLemmas PromiseModel.
 Extraction "model.ml"
   Bytes.n2b Bytes.b2n
   Base64Model.encode Base64Model.decode Base64Model.set_basic Base64Model.get_basic
@@ -12,4 +12,5 @@ Extraction "model.ml"
   RouterModel.add_route RouterModel.remove_route RouterModel.route
   QueueModel.run0 QueueModel.run_old QueueModel.init QueueModel.quiescent
   PromiseConcLemmas.init0 PromiseConcLemmas.run1 PromiseConc.grant PromiseConc.finished PromiseConc.count
-  PromiseConcLemmas.cfg_base PromiseConcLemmas.cfg_derived PromiseConcLemmas.cfg_both PromiseConcLemmas.cfg_two_derived.
+  PromiseConcLemmas.cfg_base PromiseConcLemmas.cfg_derived PromiseConcLemmas.cfg_both PromiseConcLemmas.cfg_two_derived
+  PromiseModel.run_prog.
